@@ -1,5 +1,6 @@
 import Operon.Model.CascadeHist
 import Operon.Model.CascadeMapk
+import Operon.Model.CascadeObs
 /-! Helper lemmas for the history part of C19 (`_results_history`, `get_history`). -/
 namespace Operon.Cascade
 
@@ -81,6 +82,97 @@ theorem foldl_runs_eq (rs : List (Cfg × List (Stage σ) × σ)) (l : List (HRec
     simp only [List.map_cons, List.foldl_cons, histStep]
     rw [pushSeq_eq, lastN_append_lastN, ih]
     simp
+
+/-! ### the call sequence with the observer's notifications in place -/
+
+theorem filterMap_cb_stepNotes (cfg : Cfg) (obs : Option StageObs) (i : Nat) (s : Stage σ) (a : Acc σ) :
+    (stepNotes cfg obs i s a).filterMap Note.cb? = (stageStep cfg i s a).evs ∧
+    (stepNotes cfg obs i s a).filterMap Note.shown? = stageSeen obs i s a := by
+  unfold stepNotes
+  simp [List.filterMap_append, List.filterMap_map, Function.comp_def, Note.cb?, Note.shown?]
+
+theorem notesFrom_project (cfg : Cfg) (obs : Option StageObs) :
+    ∀ (rest : List (Stage σ)) (i : Nat) (a : Acc σ),
+      (notesFrom cfg obs i rest a).filterMap Note.cb? = (runFromO cfg obs i rest a).1.log ∧
+      (notesFrom cfg obs i rest a).filterMap Note.shown? = (runFromO cfg obs i rest a).2 := by
+  intro rest
+  induction rest with
+  | nil => intro i a; simp [notesFrom, runFromO]
+  | cons s rest ih =>
+    intro i a
+    have hs := filterMap_cb_stepNotes cfg obs i s a
+    simp only [notesFrom, runFromO]
+    split
+    · exact hs
+    · have := ih (i + 1) (stageStep cfg i s a).acc
+      simp [List.filterMap_append, hs.1, hs.2, this.1, this.2]
+
+/-- a stage is shown to the observer at most once while it is worked, and then its last callback was its processor, on the
+    signal the stage was handed -/
+theorem stepNotes_shape (cfg : Cfg) (obs : Option StageObs) (i : Nat) (s : Stage σ) (a : Acc σ) :
+    stepNotes cfg obs i s a = (stageStep cfg i s a).evs.map .cb ∨
+    ∃ pre : List (Ev σ), stepNotes cfg obs i s a = pre.map .cb ++ [.cb (.proc i a.cur), .shown i] := by
+  unfold stepNotes stageSeen
+  cases obs with
+  | none => left; simp
+  | some f =>
+    simp only
+    split
+    · rename_i hg
+      cases hp : procOutcome s a.cur with
+      | ok v =>
+        right
+        simp only [List.map_cons, List.map_nil]
+        unfold gateOpen at hg
+        unfold stageStep
+        cases hc : s.checkpoint with
+        | none =>
+          refine ⟨[], ?_⟩
+          simp [process, hp, procEvs]
+        | some cp =>
+          simp only [hc] at hg
+          cases hcp : cp a.cur with
+          | raise => simp [hcp] at hg
+          | ok b =>
+            cases b with
+            | false => simp [hcp] at hg
+            | true =>
+              refine ⟨[.cp i a.cur (.ok true)], ?_⟩
+              simp [hcp, process, hp, procEvs]
+      | recovered v => left; simp
+      | failed b => left; simp
+    · left; simp
+
+theorem notesFrom_shown (cfg : Cfg) (obs : Option StageObs) :
+    ∀ (rest : List (Stage σ)) (i : Nat) (a : Acc σ) (j : Nat), Note.shown j ∈ notesFrom cfg obs i rest a →
+      ∃ pre post sig, notesFrom cfg obs i rest a = pre ++ Note.cb (.proc j sig) :: Note.shown j :: post := by
+  intro rest
+  induction rest with
+  | nil => intro i a j h; simp [notesFrom] at h
+  | cons s rest ih =>
+    intro i a j h
+    have hstep : Note.shown j ∈ stepNotes cfg obs i s a →
+        ∃ pre sig, stepNotes cfg obs i s a = pre ++ [Note.cb (.proc j sig), Note.shown j] := by
+      intro hm
+      rcases stepNotes_shape cfg obs i s a with h1 | ⟨pre, h1⟩
+      · rw [h1] at hm; simp at hm
+      · rw [h1] at hm
+        simp at hm
+        subst hm
+        exact ⟨pre.map .cb, a.cur, h1⟩
+    simp only [notesFrom] at h ⊢
+    split at h
+    · rename_i hstop
+      simp only [hstop, if_true]
+      obtain ⟨pre, sig, e⟩ := hstep h
+      exact ⟨pre, [], sig, by rw [e]⟩
+    · rename_i hstop
+      simp only [hstop]
+      rcases List.mem_append.mp h with hm | hm
+      · obtain ⟨pre, sig, e⟩ := hstep hm
+        exact ⟨pre, notesFrom cfg obs (i + 1) rest (stageStep cfg i s a).acc, sig, by rw [e]; simp⟩
+      · obtain ⟨pre, post, sig, e⟩ := ih (i + 1) (stageStep cfg i s a).acc j hm
+        exact ⟨stepNotes cfg obs i s a ++ pre, post, sig, by rw [e]; simp⟩
 
 /-- do `histCap`, `pushSeq` / `pushPar`, `getHistory` and `histDefault` reproduce what the real Cascade's history did? -/
 def histAgrees (f : List Nat × Nat × Nat × Bool × Bool × List (Int × List Nat) × Nat) : Bool :=
